@@ -84,7 +84,7 @@ def body(name, a, b, c):
     e = ENV
     t = next(e.tok)
     e.execs.append((name, (a, b, c), t))
-    if e.block:
+    for _round in range(int(e.block)):  # (True: one request; 2: two requests one after the other)
         yield harness.HItem(e.rt, 0, "c%d" % next(e.items), ("c13", t))
     if e.fail_next or (a, b, c) in e.fail_keys:
         e.fail_next = False
@@ -607,6 +607,50 @@ def run_lazy(hist, env, stats):
                         viol.append(("lazy-constant-hit", {"op": op, "executions": ran, "expected": m_val, "observed": out, "now": env.now, "refreshed_at": m_refresh, "ttl": ttl}))
                         break
                 m_refresh = 0  # the dirty() came after the value was read / while it was being computed
+            elif op[0] == "race3":
+                # two computations in flight with nothing valid cached: the first to finish succeeds (stored and
+                # stamped), the other one - which needs one more request - RAISES afterwards: a failure is not
+                # cached and does not disturb what a successful computation has stored
+                must = (m_refresh == 0) or (ttl != 0 and m_refresh < env.now - ttl)
+                if not must:
+                    continue
+                env.block = True
+                env.fail_next = False
+                n = len(env.execs)
+                late = []
+
+                @A()
+                def later():
+                    env.block = 2
+                    try:
+                        return ("val", (yield const.asynq()))
+                    except UserErr as e_:
+                        return ("exc", exc_desc(e_))
+                    finally:
+                        late.append(1)
+
+                @A()
+                def racer3():
+                    t1 = const.asynq()
+                    t1.on_computed.subscribe(lambda _t: setattr(env, "fail_next", True))
+                    return (yield t1, later.asynq())
+
+                out = racer3()
+                env.fail_next = False
+                env.block = False
+                ran = len(env.execs) - n
+                stats["failing_computation_finishing_after_a_successful_overlapping_one"] = stats.get("failing_computation_finishing_after_a_successful_overlapping_one", 0) + 1
+                toks = [tokval("const", e[2]) for e in env.execs[n:]]
+                if ran != 2 or out[0] != toks[0] or out[1][0] != "exc":
+                    viol.append(("lazy-constant-race", {"op": op, "executions": ran, "observed": repr(out)[:160]}))
+                    break
+                m_val = toks[0]
+                m_refresh = env.now
+                again = const()
+                if len(env.execs) - n != 2 or again != m_val:
+                    viol.append(("lazy-constant-hit", {"op": op, "executions_after_the_race": len(env.execs) - n - 2, "expected": m_val, "observed": again, "what": "a failing overlapping computation disturbed the stored value"}))
+                    break
+                stats["hits"] += 1
             elif op[0] == "race2":
                 # a refresh that started BEFORE a dirty() finishes AFTER the recomputation that the dirty() caused:
                 # what stays cached is the value computed after the invalidation
@@ -696,6 +740,8 @@ def make_history(rnd, kind):
                 ops.append(["race"])
             elif r < 0.58:
                 ops.append(["race2"])
+            elif r < 0.64:
+                ops.append(["race3"])
             else:
                 ops.append(["call", rnd.random() < 0.3, rnd.random() < 0.12, rnd.random() < 0.5])
         return {"ttl": ttl, "ops": ops}
